@@ -184,10 +184,10 @@ template <class E> Segment c08Segment(long nQuick, long nThorough) {
         std::string refName;
         for (long bs : bss) for (int ogp = 0; ogp < 2; ++ogp) {
             Conf<E> cc = c; cc.oneGroupPerParent = ogp; cc.blockSize = bs;
-            if (bs == -2) { const long envBs = 1 + long(vh::mix(seed, kk) % 7); setenv("TBFMM_BLOCK_SIZE", vh::str(envBs).c_str(), 1); cc.blockSize = -1; }
+            if (bs == -2) { const long envBs = tbx::envBlockSize(vh::mix(seed, kk)); setenv("TBFMM_BLOCK_SIZE", vh::str(envBs).c_str(), 1); cc.blockSize = -1; }
             CheckedRun<E> cr; cr.build(cc, res);
             if (bs == -2) {
-                const long envBs = 1 + long(vh::mix(seed, kk) % 7);
+                const long envBs = tbx::envBlockSize(vh::mix(seed, kk));
                 if (cr.pr.tree->getNbElementsPerGroup() != envBs) res.fail("c08:env-block-size-ignored", "TBFMM_BLOCK_SIZE=" + vh::str(envBs) + " but tree uses " + vh::str(cr.pr.tree->getNbElementsPerGroup()));
                 unsetenv("TBFMM_BLOCK_SIZE");
             }
@@ -234,6 +234,36 @@ inline const std::vector<std::vector<int>>& flagHistories() {
     // the documented split
     all.push_back({TbfBottomToTopStages, TbfTransferStages, TbfTopToBottomStages});
     return all;
+}
+
+// histories written with the named composite flags the README documents (lines "TbfNearField = TbfP2P, TbfFarField = ..."):
+// each is a partition of the full algorithm in dependency order, so each must end like one full run
+inline const std::vector<std::vector<int>>& namedHistories() {
+    using namespace TbfAlgorithmUtils;
+    static const std::vector<std::vector<int>> named = {
+        {TbfBottomToTopStages, TbfTransferStages, TbfTopToBottomStages},
+        {TbfFarField, TbfNearField}, {TbfNearField, TbfFarField}, {TbfNearAndFarFields},
+        {TbfBottomToTopStages, TbfNearField, TbfM2L, TbfTopToBottomStages}};
+    return named;
+}
+// history number q of a sample of nh: the named ones first, random ordered partitions after
+template <class R> inline const std::vector<int>& pickHistory(size_t q, R& r) {
+    const auto& nm = namedHistories(); const auto& hs = flagHistories();
+    return q < nm.size() ? nm[q] : hs[r.below(hs.size())];
+}
+// the named composite flags are, as sets of operators, what the README says they are (observed through which operators a run
+// with that flag alone calls: see the single-flag family; here the cheap half: disjointness / cover of the documented partitions)
+inline void checkNamedFlagAlgebra(vh::Result& res) {
+    using namespace TbfAlgorithmUtils;
+    const int all = TbfP2P | TbfP2M | TbfM2M | TbfM2L | TbfL2L | TbfL2P;
+    auto part = [&](std::initializer_list<int> st, const char* what) {
+        int seen = 0; for (int f : st) { if (seen & f) res.fail("c12:named-flags-overlap", std::string(what) + ": stage " + vh::str(f) + " repeats operators of an earlier stage (" + vh::str(seen & f) + ")"); seen |= f; }
+        if (seen != all) res.fail("c12:named-flags-do-not-cover", std::string(what) + ": union " + vh::str(seen));
+    };
+    part({TbfFarField, TbfNearField}, "TbfFarField;TbfNearField");
+    part({TbfBottomToTopStages, TbfTransferStages, TbfTopToBottomStages}, "TbfBottomToTopStages;TbfTransferStages;TbfTopToBottomStages");
+    part({TbfNearAndFarFields}, "TbfNearAndFarFields");
+    res.ev("named-flag-partitions-checked", 3);
 }
 
 template <class Tree, class PV> struct TreeBytes {
@@ -293,6 +323,25 @@ template <class E> Segment c12Segment(long nQuick, long nThorough) {
                 if (before.symbolic != after.symbolic) res.fail("c12:writes-foreign-output:symbolic", "flag " + vh::str(f) + " changed symbolic data");
                 res.ev("single-flag-runs");
             }
+            // the named composite flags alone: exactly the operators the README lists for them, on the same kind of prepared tree
+            {
+                const unsigned oP2P = (1u << vm::OP_P2P) | (1u << vm::OP_P2PINNER), oP2M = 1u << vm::OP_P2M, oM2M = 1u << vm::OP_M2M, oM2L = 1u << vm::OP_M2L, oL2L = 1u << vm::OP_L2L, oL2P = 1u << vm::OP_L2P;
+                struct Named { int flag; unsigned allowed; int prepare; const char* name; };
+                const Named named[] = {{TbfNearField, oP2P, 0, "TbfNearField"}, {TbfFarField, oP2M | oM2M | oM2L | oL2L | oL2P, 0, "TbfFarField"},
+                                       {TbfBottomToTopStages, oP2M | oM2M, 0, "TbfBottomToTopStages"}, {TbfTransferStages, oM2L | oP2P, TbfP2M | TbfM2M, "TbfTransferStages"},
+                                       {TbfTopToBottomStages, oL2L | oL2P, TbfP2M | TbfM2M | TbfM2L, "TbfTopToBottomStages"}, {TbfNearAndFarFields, oP2P | oP2M | oM2M | oM2L | oL2L | oL2P, 0, "TbfNearAndFarFields"}};
+                for (const auto& nf : named) {
+                    CheckedRun<E> cr; cr.build(c, res); if (!cr.ok) return;
+                    cr.rc.record = false;
+                    for (int g : {TbfP2M, TbfM2M, TbfM2L}) if (nf.prepare & g) cr.algo->execute(*cr.pr.tree, g);
+                    cr.rc.record = true; cr.rc.elems.clear(); cr.rc.calls.fill(0);
+                    cr.algo->execute(*cr.pr.tree, nf.flag);
+                    drainRec<D>(cr.rc, res, "c12:");
+                    for (int op = 0; op < vm::OP_NB; ++op) if (cr.rc.calls[op] && !(nf.allowed & (1u << op))) res.fail(std::string("c12:flag-triggers-other-operator:") + vm::opName(op), std::string("flag ") + nf.name + " called " + vm::opName(op));
+                    compareElems<D>(cr.rc.elems, vm::expectedElems<D>(cr.cells, E::Space::IsPeriodic, c.upper, nf.allowed), res, std::string("c12:named-flag-events:") + nf.name);
+                    res.ev("named-flag-runs");
+                }
+            }
             res.nontrivial = N >= 2; res.sig = "single:" + confSig<E>(c, vh::mix(c.seed, 2));
         } else if (sub == 1) {
             // (b) staged histories end bit-identical to one full run
@@ -301,10 +350,11 @@ template <class E> Segment c12Segment(long nQuick, long nThorough) {
             const auto ref = snapshotTree<E>(*full.pr.tree, N);
             full.pr.reference(false, res); full.pr.compare(res, "c12:poly-direct-sum");
             const auto& hs = flagHistories();
-            const size_t nh = th ? hs.size() : 24;
+            const size_t nh = th ? hs.size() + namedHistories().size() : 24;
             res.desc += " history=staged x" + vh::str(nh);
+            checkNamedFlagAlgebra(res);
             for (size_t q = 0; q < nh; ++q) {
-                const auto& h = th ? hs[q] : hs[(q == 0) ? hs.size() - 1 : r.below(hs.size())];
+                const auto& h = th ? (q < hs.size() ? hs[q] : namedHistories()[q - hs.size()]) : pickHistory(q, r);
                 PolyRun<E, typename E::PolyKernel> pr; pr.build(c);
                 TbfAlgorithm<Real, typename E::PolyKernel, typename E::Space> algo(*pr.cfg, c.upper);
                 for (int st : h) algo.execute(*pr.tree, st);
